@@ -223,7 +223,7 @@ def shard(tier, seed, n, which):
 
 def run(tier, seed):
     t0 = time.time()
-    total = 2400 if tier == 'quick' else 80000
+    total = 3200 if tier == 'quick' else 80000
     seeds = common.shard_seeds(seed, common.NPROC)
     plan = ['race'] * 7 + ['c01'] * 3 + ['c05'] * 3 + ['c09'] * 2 + ['reconnect']
     try:
